@@ -27,13 +27,25 @@
        book-keeping -- [honest] re-derives them from the Acq/Rel history, so they are checked, not
        trusted.
      - callees run inside the region of their caller (the only callee that takes a lock itself,
-       db.compact inside DB.Compact, is inlined explicitly below: [prog_Compact_full]).
+       db.compact inside DB.Compact, is inlined explicitly below: [prog_Compact_full]; so are
+       Sync and Compact inside the background worker: [prog_worker]).
+
+   LOOPS AND BRANCHES.  The translator walks a loop body once.  Section 11 shows that repeating or
+   skipping a lock-neutral segment preserves all checks ([wf_repeat], [unrolls_wf]), section 12
+   that every loop of the programs below is lock-neutral ([pogreb_loops_neutral]); the pogreb
+   theorems are stated for all such unrollings.  An early return is linearised as if execution
+   went on: this breaks [balanced] for exactly one function, DB_Compact, whose two executions are
+   recovered in section 12.
 
    WHAT IS PROVED (all closed under the global context, see the end of the file):
-     mutual_exclusion_invariant, conflict_free, no_simultaneous_conflict, deadlock_free, progress,
-     every_maximal_run_finishes, deadlock_free_writer_preference, and their instances for the
-     regenerated shapes: pogreb_programs_ok, pogreb_deadlock_free, pogreb_race_free,
-     close_waits_before_locking. *)
+     generic    mutual_exclusion_invariant, conflict_free, no_simultaneous_conflict,
+                deadlock_free, waits_only_upwards, try_only_empty_handed, progress,
+                every_maximal_run_finishes, deadlock_free_writer_preference, wf_repeat, unrolls_wf
+     instances  shape_table_ok_except_Compact, pogreb_programs_ok, pogreb_programs_honest_guarded,
+                pogreb_loops_neutral, pogreb_deadlock_free, pogreb_race_free,
+                close_waits_before_locking
+     examples   section 14 (concrete schedules; a blocked configuration; what goes wrong when the
+                discipline is broken) *)
 From Coq Require Import List Bool Arith Lia String.
 From Pogreb Require Import gen.Shape ShapeCheck.
 Import ListNotations.
@@ -293,6 +305,7 @@ Proof. intros c i c' H. apply step_inv in H. destruct H as [t [t' [_ [_ ->]]]]. 
 
 Definition is_lockop (t : tok) : bool :=
   match t with Acq _ _ | TryAcq _ | Rel _ => true | _ => false end.
+Definition is_acq (t : tok) : bool := match t with Acq _ _ => true | _ => false end.
 
 Inductive tstep_case (oany oex : lk -> bool) (p : list tok) (h : hset) (t' : thread) : Prop :=
 | ts_acq_ex : forall l p', p = Acq l Ex :: p' -> t' = (p', (l, Ex) :: h) ->
@@ -616,7 +629,6 @@ Definition reader_tok (t : tok) : bool :=
   | Field f _ => mem_str f guarded_fields
   | _ => false
   end.
-Definition next_tok (t : thread) : option tok := hd_error (fst t).
 
 Lemma guarded_writer : forall tk, tok_guarded tk = true -> writer_tok tk = true ->
   exists a, (forall p h, next_held (tk :: p, h) = Some a) /\ holds_ex Mu a = true.
@@ -719,7 +731,7 @@ Proof.
     pose proof (Forall_nth _ _ _ _ HF Hnj) as [HOj HBj]. simpl in HOj, HBj.
     destruct pj as [|tk pj].
     + apply balanced_nil in HBj. subst hj. discriminate.
-    + destruct (is_lockop tk && negb (match tk with Acq _ _ => false | _ => true end)) eqn:Ek.
+    + destruct (is_acq tk) eqn:Ek.
       * destruct tk as [l' m'|l'|l'|c0 a|f a|y| | |]; try discriminate.
         apply (IH j l' m' pj hj Hnj).
         pose proof (order_acq_rank _ _ _ _ _ HOj (holds_in _ _ Hh)). lia.
@@ -735,7 +747,7 @@ Proof.
   intros c HF [[p h] [Hin Hne]]. simpl in Hne.
   apply In_nth_error in Hin. destruct Hin as [i Hn].
   destruct p as [|tk p]; [contradiction|].
-  destruct (is_lockop tk && negb (match tk with Acq _ _ => false | _ => true end)) eqn:Ek.
+  destruct (is_acq tk) eqn:Ek.
   - destruct tk as [l m|l|l|c0 a|f a|y| | |]; try discriminate.
     apply (waits_for_chain c HF 3 i l m p h Hn). lia.
   - assert (Hna : forall l m, tk <> Acq l m) by (intros l m ->; discriminate).
@@ -762,6 +774,34 @@ Proof.
   intros c0 c Hi Hp R Hne. apply wf_can_step; [|exact Hne].
   apply (reachable_Forall twf tstep_twf c0 c); [|exact R].
   apply initial_twf; [exact Hi|]. intros t Hin. unfold wf_program. apply andb_true_iff. apply Hp, Hin.
+Qed.
+
+(* what [order_ok] and [balanced] mean for a running thread: it only ever waits for a lock of
+   strictly higher rank than everything it holds, and it tries (TryLock) only empty-handed, so
+   that giving up leaves nothing locked *)
+Theorem waits_only_upwards : forall c0 c i l m p h,
+  initial c0 -> (forall t, In t c0 -> order_ok [] (fst t) = true /\ balanced (fst t) = true) ->
+  reachable c0 c -> nth_error c i = Some (Acq l m :: p, h) ->
+  forall l', holds l' h = true -> rank l' < rank l.
+Proof.
+  intros c0 c i l m p h Hi Hp R Hn l' Hh.
+  assert (HF : Forall twf c).
+  { apply (reachable_Forall twf tstep_twf c0 c); [|exact R].
+    apply initial_twf; [exact Hi|]. intros t Hin. unfold wf_program. apply andb_true_iff. apply Hp, Hin. }
+  destruct (Forall_nth _ _ _ _ HF Hn) as [HO _]. cbn [fst snd] in HO.
+  exact (order_acq_rank _ _ _ _ _ HO (holds_in _ _ Hh)).
+Qed.
+
+Theorem try_only_empty_handed : forall c0 c i l p h,
+  initial c0 -> (forall t, In t c0 -> order_ok [] (fst t) = true /\ balanced (fst t) = true) ->
+  reachable c0 c -> nth_error c i = Some (TryAcq l :: p, h) -> h = [].
+Proof.
+  intros c0 c i l p h Hi Hp R Hn.
+  assert (HF : Forall twf c).
+  { apply (reachable_Forall twf tstep_twf c0 c); [|exact R].
+    apply initial_twf; [exact Hi|]. intros t Hin. unfold wf_program. apply andb_true_iff. apply Hp, Hin. }
+  destruct (Forall_nth _ _ _ _ HF Hn) as [_ HB]. cbn [fst snd] in HB. simpl in HB.
+  destruct h; [reflexivity|discriminate].
 Qed.
 
 (* ------------------------------------------------------------------------------------------- *)
@@ -886,8 +926,6 @@ Proof.
   unfold step_wp; intros c i c' H. destruct (nth_error c i) as [t|]; [|discriminate].
   destruct (wants_sh t) as [l|]; [|exact H]. destruct (pending_writer c i l); [discriminate|exact H].
 Qed.
-
-Definition is_acq (t : tok) : bool := match t with Acq _ _ => true | _ => false end.
 
 Lemma step_wp_not_sh : forall (c : conf) i tk p h, nth_error c i = Some (tk :: p, h) ->
   (forall l, tk <> Acq l Sh) -> step_wp c i = step c i.
@@ -1254,23 +1292,54 @@ Example pogreb_programs_names :
   forallb (fun e => negb (match snd e with [] => true | _ => false end)) pogreb_programs = true.
 Proof. vm_compute. split; reflexivity. Qed.
 
-Definition runs_pogreb (c0 : conf) : Prop :=
-  forall t, In t c0 -> snd t = [] /\ In (fst t) (map snd pogreb_programs).
+(* every loop of these programs is closed and lock-neutral, so [unrolls] covers any number of
+   iterations of any of them.  (The error path of DB_Compact leaves its loop by [return]; the
+   iterations before the failing one are repetitions of the lock-neutral sealSegment call.) *)
+Theorem pogreb_loops_neutral :
+  forallb (fun e => loops_neutral (snd e))
+          (filter (fun e => negb (String.eqb (fst e) "DB_Compact (sealSegment failed)")) pogreb_programs) = true.
+Proof. vm_compute. reflexivity. Qed.
 
-Lemma pogreb_program_props : forall p, In p (map snd pogreb_programs) ->
-  order_ok [] p = true /\ balanced p = true /\ honest p = true /\ forallb tok_guarded p = true.
+Example compact_record_loop_unrolls : forall n,
+  exists pre body post,
+    loop_segments [] (lookup "DB_compact") = [(pre, body, post)] /\
+    lookup "DB_compact" = pre ++ body ++ post /\
+    unrolls (lookup "DB_compact") (pre ++ times n body ++ post).
+Proof.
+  intros n. eexists; eexists; eexists. split; [vm_compute; reflexivity|]. split; [vm_compute; reflexivity|].
+  apply unroll_rep; [apply unroll_refl|vm_compute; reflexivity].
+Qed.
+
+(* an initial configuration of the system: every thread holds nothing and runs one of the programs
+   above, its lock-neutral segments (loops) repeated or skipped at will.  A failing TryLock inside
+   the worker's loop is the unrolling that skips that Compact; at top level it ends the thread. *)
+Definition runs_pogreb (c0 : conf) : Prop :=
+  forall t, In t c0 -> snd t = [] /\ exists p, In p (map snd pogreb_programs) /\ unrolls p (fst t).
+
+Lemma pogreb_program_props : forall p, In p (map snd pogreb_programs) -> wf_from [] p = true.
 Proof.
   intros p Hin. apply in_map_iff in Hin. destruct Hin as [e [<- Hin]].
   pose proof pogreb_programs_ok as H1. pose proof pogreb_programs_honest_guarded as H2.
   rewrite forallb_forall in H1, H2. specialize (H1 e Hin). specialize (H2 e Hin).
-  apply andb_true_iff in H1. apply andb_true_iff in H2. tauto.
+  apply andb_true_iff in H1. apply andb_true_iff in H2. destruct H1 as [H1 H1']. destruct H2 as [H2 H2'].
+  unfold wf_from. cbn [map]. unfold balanced in H1'. unfold honest in H2.
+  rewrite H1, H1', H2, H2'. reflexivity.
+Qed.
+
+Lemma runs_pogreb_props : forall c0 t, runs_pogreb c0 -> In t c0 ->
+  snd t = [] /\ order_ok [] (fst t) = true /\ balanced (fst t) = true /\
+  honest (fst t) = true /\ forallb tok_guarded (fst t) = true.
+Proof.
+  intros c0 t H Hin. destruct (H t Hin) as [E [p [Hp U]]]. split; [exact E|].
+  pose proof (unrolls_wf _ _ U (pogreb_program_props _ Hp)) as W.
+  unfold wf_from in W. cbn [map] in W. rewrite !andb_true_iff in W. unfold balanced, honest. tauto.
 Qed.
 
 Lemma runs_pogreb_wf : forall c0, runs_pogreb c0 -> wf_conf c0.
 Proof.
   intros c0 H. split.
-  - intros t Hin. destruct (H t Hin) as [E _]. exact E.
-  - intros t Hin. destruct (H t Hin) as [_ Hp]. apply pogreb_program_props in Hp. tauto.
+  - intros t Hin. destruct (runs_pogreb_props c0 t H Hin) as [E _]. exact E.
+  - intros t Hin. pose proof (runs_pogreb_props c0 t H Hin). tauto.
 Qed.
 
 (* any number of threads, each running any of the public methods (or the worker), all schedules:
@@ -1320,8 +1389,9 @@ Proof.
   intros c0 c i j ti tj ri rj hi hj H R Hij Hni Hnj Wi Aj.
   assert (Hi : initial c0) by (intros t Hin; destruct (H t Hin) as [E _]; exact E).
   assert (F0 : Forall (fun t => thonest t /\ tguarded t) c0).
-  { apply Forall_forall. intros [p h] Hin. destruct (H _ Hin) as [Eh Hp]. simpl in Eh, Hp. subst h.
-    apply pogreb_program_props in Hp. unfold thonest, tguarded; simpl. tauto. }
+  { apply Forall_forall. intros [p h] Hin.
+    pose proof (runs_pogreb_props c0 _ H Hin) as [Eh Hp]. cbn [fst snd] in Eh, Hp. subst h.
+    unfold thonest, tguarded, honest in *; cbn [fst snd]. tauto. }
   assert (F : Forall (fun t => thonest t /\ tguarded t) c).
   { apply (reachable_Forall _) with (c0 := c0); [|exact F0|exact R].
     intros oany oex t t' T [A B]. split; [eapply tstep_thonest|eapply tstep_tguarded]; eauto. }
@@ -1330,3 +1400,172 @@ Proof.
   apply andb_true_iff in Gi. apply andb_true_iff in Gj.
   eapply (conflict_core c i j ti tj); eauto using reachable_ME; tauto.
 Qed.
+
+(* ------------------------------------------------------------------------------------------- *)
+(** * 13. Close waits for the worker before it locks *)
+
+Definition wait_call (c : string) : bool :=
+  String.eqb c "db.cancelBgWorker" || String.eqb c "db.closeWg.Wait".
+(* every call that waits for the worker is annotated "holds nothing" *)
+Definition waits_unlocked (t : tok) : bool :=
+  match t with
+  | Call c a => if wait_call c then match a with [] => true | _ => false end else true
+  | _ => true
+  end.
+
+Lemma tstep_forallb : forall (f : tok -> bool) oany oex t t',
+  tstep oany oex t = Some t' -> forallb f (fst t) = true -> forallb f (fst t') = true.
+Proof.
+  intros f oany oex [p h] t' T H. simpl in H. apply tstep_cases in T.
+  destruct T as [l p' -> -> E1 E2|l p' -> -> E1 E2|l p' -> -> E1 E2|l p' -> ->|l p' -> ->|tk p' -> -> E];
+    cbn [fst snd]; try reflexivity; simpl in H; apply andb_true_iff in H; tauto.
+Qed.
+
+(* a thread with an honest program, whatever the others do: while it is at a call that waits for
+   the worker and is annotated "holds nothing", it really holds nothing -- it cannot be the reason
+   why the worker (which takes db.mu and maintenanceMu inside Sync / Compact) does not get there *)
+Theorem waits_hold_nothing : forall c0 c i p0 cl a r h,
+  initial c0 -> reachable c0 c ->
+  nth_error c0 i = Some (p0, []) -> honest p0 = true -> forallb waits_unlocked p0 = true ->
+  nth_error c i = Some (Call cl a :: r, h) -> wait_call cl = true ->
+  h = [].
+Proof.
+  intros c0 c i p0 cl a r h Hi R H0 Hh Hw Hn Hcl.
+  destruct (reachable_thread (fun t => thonest t /\ forallb waits_unlocked (fst t) = true)) with
+    (c0 := c0) (c := c) (i := i) (t0 := (p0, @nil (lk * mode))) as [t [Ht [Hth Hwt]]]; auto.
+  - intros oany oex t t' T [A B]. split; [eapply tstep_thonest|eapply tstep_forallb]; eauto.
+  - rewrite Hn in Ht. injection Ht as <-.
+    pose proof (thonest_next _ a Hth eq_refl) as E. cbn [snd] in E.
+    cbn [fst] in Hwt. simpl in Hwt. apply andb_true_iff in Hwt. destruct Hwt as [Hwt _].
+    rewrite Hcl in Hwt. destruct a; [|discriminate].
+    destruct h as [|x h]; [reflexivity|]. simpl in E. symmetry in E. apply app_eq_nil in E.
+    destruct E as [_ E]. discriminate.
+Qed.
+
+Lemma close_prefix_inv : forall p : list tok,
+  match p with
+  | Call "db.cancelBgWorker" [] :: Call "db.closeWg.Wait" [] :: Acq Mu Ex :: _ => true
+  | _ => false
+  end = true ->
+  exists rest, p = Call "db.cancelBgWorker" [] :: Call "db.closeWg.Wait" [] :: Acq Mu Ex :: rest.
+Proof.
+  intros p H.
+  repeat match type of H with
+         | context [match ?x with _ => _ end] => is_var x; destruct x; try discriminate H
+         end.
+  eexists; reflexivity.
+Qed.
+
+(* From ShapeCheck.shape_close_order: DB.Close cancels the worker and waits for it first, then takes
+   db.mu; these are its only waiting calls; and in every reachable configuration of any system in
+   which thread i runs DB.Close, while it is at one of them it holds no lock. *)
+Theorem close_waits_before_locking :
+  (exists rest,
+     lookup "DB_Close" =
+       Call "db.cancelBgWorker" [] :: Call "db.closeWg.Wait" [] :: Acq Mu Ex :: rest /\
+     forallb (fun t => match t with Call c _ => negb (wait_call c) | _ => true end) rest = true) /\
+  (forall c0 c i cl a r h,
+     initial c0 -> reachable c0 c ->
+     nth_error c0 i = Some (lookup "DB_Close", []) ->
+     nth_error c i = Some (Call cl a :: r, h) -> wait_call cl = true ->
+     h = []).
+Proof.
+  split.
+  - pose proof shape_close_order as H. unfold close_order_ok in H.
+    apply andb_true_iff in H. destruct H as [_ H].
+    destruct (close_prefix_inv (lookup "DB_Close") H) as [rest E]. exists rest. split; [exact E|].
+    assert (Er : rest = skipn 3 (lookup "DB_Close")) by (rewrite E; reflexivity).
+    rewrite Er. vm_compute. reflexivity.
+  - intros c0 c i cl a r h Hi R H0 Hn Hcl.
+    apply (waits_hold_nothing c0 c i (lookup "DB_Close") cl a r h); auto; vm_compute; reflexivity.
+Qed.
+
+(* ------------------------------------------------------------------------------------------- *)
+(** * 14. Non-vacuity *)
+
+Definition ex_conf : conf := [(lookup "DB_Put", []); (lookup "DB_Delete", []); (lookup "DB_Get", [])].
+
+(* Put has taken db.mu; Delete and Get stand at their Lock / RLock and are blocked; Put can move *)
+Example ex_blocked :
+  exists c, run ex_conf [0; 0; 1; 2] = Some c /\
+    nth_error c 0 = Some ([Call "db.datalog.put" [(Mu, Ex)]; Call "db.put" [(Mu, Ex)];
+                           Call "db.sync" [(Mu, Ex)]; Rel Mu], [(Mu, Ex)]) /\
+    option_map fst (nth_error c 1) = Some (skipn 1 (lookup "DB_Delete")) /\
+    option_map fst (nth_error c 2) = Some (skipn 1 (lookup "DB_Get")) /\
+    step c 1 = None /\ step c 2 = None /\ step c 0 <> None.
+Proof. eexists. split; [vm_compute; reflexivity|]. vm_compute. repeat split; try reflexivity. discriminate. Qed.
+
+(* a complete schedule of the three; every program becomes [] and nothing stays locked *)
+Example ex_all_finish :
+  run ex_conf [0; 0; 1; 2; 0; 0; 0; 0; 1; 1; 1; 1; 2; 2; 2; 2; 2] = Some [([], []); ([], []); ([], [])].
+Proof. vm_compute. reflexivity. Qed.
+
+(* another interleaving: the reader first, the writers wait for it *)
+Example ex_reader_first :
+  exists c, run ex_conf [2; 2; 0; 1] = Some c /\ step c 0 = None /\ step c 1 = None /\
+    run c [2; 2; 2; 2; 1; 1; 1; 1; 0; 0; 0; 0; 0] = Some [([], []); ([], []); ([], [])].
+Proof. eexists. split; [vm_compute; reflexivity|]. vm_compute. repeat split; reflexivity. Qed.
+
+(* readers share: two Gets and an iterator hold db.mu at the same time *)
+Example ex_readers_share :
+  exists c, run [(lookup "DB_Get", []); (lookup "DB_Has", []); (lookup "ItemIterator_Next", [])]
+                [0; 0; 1; 1; 2; 2] = Some c /\
+    map snd c = [[(Mu, Sh)]; [(Mu, Sh)]; [(Mu, Sh); (ItMu, Ex)]].
+Proof. eexists. split; vm_compute; reflexivity. Qed.
+
+(* TryLock: the second Compact finds maintenanceMu taken and returns at once; Backup blocks on it *)
+Example ex_trylock :
+  exists c, run [(prog_Compact_full, []); (prog_Compact_full, []); (lookup "DB_Backup", [])] [0; 1] = Some c /\
+    nth_error c 1 = Some ([], []) /\ step c 2 = None /\
+    exists sch, run c sch = Some [([], []); ([], []); ([], [])].
+Proof.
+  eexists. split; [vm_compute; reflexivity|]. split; [vm_compute; reflexivity|].
+  split; [vm_compute; reflexivity|].
+  exists (repeat 0 (List.length prog_Compact_full - 1) ++ repeat 2 (List.length (lookup "DB_Backup"))).
+  vm_compute. reflexivity.
+Qed.
+
+(* the theorems apply to these configurations *)
+Example ex_conf_runs_pogreb : runs_pogreb ex_conf.
+Proof.
+  intros t Hin. split.
+  - destruct Hin as [<-|[<-|[<-|[]]]]; reflexivity.
+  - exists (fst t). split; [|apply unroll_refl].
+    destruct Hin as [<-|[<-|[<-|[]]]]; vm_compute; tauto.
+Qed.
+
+(* the conflict the invariant excludes does occur once the discipline is broken: a Put that
+   forgot to lock stands at its write while Get reads *)
+Example ex_unlocked_writer_races :
+  exists c, run [([Call "db.put" [(Mu, Ex)]], []); (lookup "DB_Get", [])] [1; 1] = Some c /\
+    exists ti ri hi tj rj hj,
+      nth_error c 0 = Some (ti :: ri, hi) /\ nth_error c 1 = Some (tj :: rj, hj) /\
+      writer_tok ti = true /\ reader_tok tj = true /\ honest (ti :: ri) = false.
+Proof.
+  eexists. split; [vm_compute; reflexivity|].
+  do 6 eexists. split; [vm_compute; reflexivity|]. split; [vm_compute; reflexivity|].
+  vm_compute. repeat split; reflexivity.
+Qed.
+
+(* and a lock-order inversion deadlocks: order_ok rejects the program, and the run gets stuck *)
+Example ex_inverted_order_deadlocks :
+  let bad := [Acq Mu Ex; Acq MaintMu Ex; Rel MaintMu; Rel Mu] in
+  order_ok [] bad = false /\ balanced bad = true /\
+  exists c, run [(bad, []); (lookup "DB_Backup", [])] [0; 1] = Some c /\
+    step c 0 = None /\ step c 1 = None.
+Proof. vm_compute. split; [reflexivity|]. split; [reflexivity|]. eexists. repeat split; reflexivity. Qed.
+
+Print Assumptions mutual_exclusion_invariant.
+Print Assumptions conflict_free.
+Print Assumptions no_simultaneous_conflict.
+Print Assumptions deadlock_free.
+Print Assumptions waits_only_upwards.
+Print Assumptions try_only_empty_handed.
+Print Assumptions progress.
+Print Assumptions every_maximal_run_finishes.
+Print Assumptions deadlock_free_writer_preference.
+Print Assumptions unrolls_wf.
+Print Assumptions pogreb_programs_ok.
+Print Assumptions pogreb_deadlock_free.
+Print Assumptions pogreb_race_free.
+Print Assumptions close_waits_before_locking.
